@@ -31,6 +31,7 @@ type c20Date struct {
 	Label   int    // identifies an unparsable value within the document
 	General bool   // not an exact day and not plainly unparsable: decided by the model's parser only
 	Text    string // the GEDCOM value
+	Gen     *c20Range // what a General value means (start and end part), as the generator intends it; nil = not judged by the oracle
 }
 
 type c20Ev struct {
@@ -129,6 +130,7 @@ func c20General(r *Rand, day int64, oddYears bool) c20Date {
 	y2, m2, d2 := c20Civil(day + int64(c20Pick(r, []int{1, 2, 30, 200, 273, 274, 400, 5000, -3, -400})))
 	full2 := fmt.Sprintf("%d %s %d", d2, c20MonthForms[m2-1][0], y2)
 	var s string
+	k10 := 0
 	shape := r.Intn(28)
 	if !oddYears && (shape == 16 || shape == 17) {
 		// a year 0 or above 9999 in a birth or death makes the lifespan exceed 292 years, where the
@@ -157,7 +159,8 @@ func c20General(r *Rand, day int64, oddYears bool) c20Date {
 	case 9:
 		s = "Between " + full2 + " and " + full
 	case 10:
-		s = fmt.Sprintf("From %d to %d", y, y+r.Intn(3))
+		k10 = r.Intn(3)
+		s = fmt.Sprintf("From %d to %d", y, y+k10)
 	case 11:
 		s = fmt.Sprintf("%d - %d", y, y+1)
 	case 12:
@@ -193,7 +196,43 @@ func c20General(r *Rand, day int64, oddYears bool) c20Date {
 	default:
 		s = fmt.Sprintf("Bet. Abt. %d and Bef. %d", y, y+2)
 	}
-	return c20Date{General: true, Text: s}
+	// the meaning of the value by the documented grammar (constraint words do not move a date; a range
+	// has a start and an end; a part that is not a date fails on its own); nil where the grammar is
+	// silent (years 0 / above 9999, trailing words, a day without a month)
+	full1, fullB := c20Part{D: d, M: m, Y: y}, c20Part{D: d2, M: m2, Y: y2}
+	mon1, monB := c20Part{M: m, Y: y}, c20Part{M: m2, Y: y2}
+	yr := func(v int) c20Part { return c20Part{Y: v} }
+	failed := c20Part{Failed: true}
+	var g *c20Range
+	switch shape {
+	case 0, 1, 2, 3, 12, 15:
+		g = &c20Range{full1, full1}
+	case 4, 7, 19:
+		g = &c20Range{mon1, mon1}
+	case 5, 6:
+		g = &c20Range{yr(y), yr(y)}
+	case 8:
+		g = &c20Range{full1, fullB}
+	case 9:
+		g = &c20Range{fullB, full1}
+	case 13:
+		g = &c20Range{failed, full1}
+	case 14:
+		g = &c20Range{full1, failed}
+	case 20:
+		g = &c20Range{mon1, monB}
+	case 24:
+		g = &c20Range{failed, fullB}
+	case 25:
+		g = &c20Range{full1, failed}
+	case 26, 27:
+		g = &c20Range{failed, failed}
+	case 23:
+		g = &c20Range{yr(y), yr(y + 2)}
+	case 10:
+		g = &c20Range{yr(y), yr(y + k10)}
+	}
+	return c20Date{General: true, Text: s, Gen: g}
 }
 
 // ---------------------------------------------------------------- rendering
@@ -452,6 +491,7 @@ type c20Spec struct {
 	Want    map[string]int  // key -> multiplicity
 	Unclear map[string]bool // keys whose condition is within the year-approximation margin
 	Multi   map[string]bool // pair keys that are reachable through more than one CHIL line / family
+	Known   map[string]string // keys whose unwarranted report is a known finding (matcher)
 }
 
 func c20Group(kind string) int {
@@ -1225,8 +1265,8 @@ func c20Decode(text string) (doc *gedcom.Document, err error) {
 }
 
 // c20CheckSpec: oracle (S1) on one observation of one (possibly edited) document.
-func c20CheckSpec(c *Ctx, d *c20Doc, obs c20Obs, input map[string]interface{}) map[string]bool {
-	hasGeneral := false
+func c20CheckSpec(c *Ctx, d *c20Doc, obs c20Obs, input map[string]interface{}, labels map[string]int) map[string]bool {
+	hasGeneral, opaque := false, false
 	for _, rec := range d.Recs {
 		evs := []c20Ev{}
 		if rec.I != nil {
@@ -1238,16 +1278,27 @@ func c20CheckSpec(c *Ctx, d *c20Doc, obs c20Obs, input map[string]interface{}) m
 			for _, dt := range e.Dates {
 				if dt.General {
 					hasGeneral = true
+					if dt.Gen == nil {
+						opaque = true
+					}
 				}
 			}
 		}
 	}
 	spec := c20Expected(d)
 	got := c20Multiset(obs.Keys)
-	if hasGeneral {
-		c.Count("oracle-S1-skipped-non-exact-dates")
+	switch {
+	case hasGeneral && opaque:
+		// a value whose meaning the documented grammar does not settle (years 0 / above 9999, trailing
+		// words, a day without a month): judged by the correspondence only
+		c.Count("oracle-S1-skipped-uninterpreted-value")
 		spec = c20Spec{Want: map[string]int{}, Unclear: map[string]bool{}, Multi: map[string]bool{}}
 		got = map[string]int{}
+	case hasGeneral:
+		c.Count("oracle-S1-judged-general-dates")
+		spec = c20ExpectedG(d, labels)
+	default:
+		c.Count("oracle-S1-judged-exact-dates")
 	}
 	var diffs, knownDiffs []string
 	seenKinds := map[string]bool{}
@@ -1262,6 +1313,9 @@ func c20CheckSpec(c *Ctx, d *c20Doc, obs c20Obs, input map[string]interface{}) m
 		case n == w:
 		case w == 1 && n > 1 && spec.Multi[k]:
 			knownDiffs = append(knownDiffs, fmt.Sprintf("%s reported %d times", k, n))
+		case w == 0 && spec.Known[k] != "":
+			c.Oracle(spec.Known[k], "siblings whose births are about 292 years apart are reported as born too close: the difference of the last days of the two births leaves time.Duration, Time.Sub saturates at the minimum, NewDuration's negation leaves it negative and 'negative < nine months' holds",
+				input, "unwarranted: "+k, "no warning: the births are more than 106751 days apart")
 		case w == 0:
 			diffs = append(diffs, "unwarranted: "+k)
 		default:
@@ -1314,7 +1368,12 @@ func c20Run(c *Ctx, d *c20Doc, labels map[string]int, style string, permute bool
 
 	// (S1) the report is the specified multiset (documents of exact days and plain garbage only:
 	// what a non-exact value means is the parser's business, judged by the correspondence)
-	seenKinds := c20CheckSpec(c, d, obs, input)
+	seenKinds := c20CheckSpec(c, d, obs, input, labels)
+
+	// (T2) the views and guards of the specification on general dates (Model/WarningsSpec.lean)
+	if c20HasGeneral(d) || c.R.Chance(1, 4) {
+		c20TieViews(c, d, now)
+	}
 
 	// (S2) the call does not change the recorded facts, and asking again gives the same answer
 	if after := doc.String(); after != before {
@@ -1506,6 +1565,7 @@ func init() {
 			"assumption: lifespans stay below 150 years (float64 -> int64 conversion of an age above ~292 years is platform-defined in Go)")
 		n := c.N(8000, 150000)
 		maxPeople := 14
+		c20Run(c, c20FarSiblings(c.R), map[string]int{}, "siblings-292-years-apart", false)
 		for k := 0; k < n; k++ {
 			style := "mixed"
 			switch k % 10 {
@@ -1539,6 +1599,9 @@ func init() {
 			}
 			if k%10 == 4 {
 				c20Run(c, c20TieDoc(c.R), map[string]int{}, "years-tie", true)
+			}
+			if k%2 == 1 {
+				c20Run(c, c20ThresholdDoc(c, c.R), map[string]int{}, "general-threshold", k%4 == 1)
 			}
 		}
 	}
